@@ -283,13 +283,23 @@ def execute(plan, prop, out, tr):
     if len(chunks) > 1:
         m2 = mk()
         parts = []
+        kept_parts = []
         for ci, (lo, hi) in enumerate(chunks):
             res = _guard(lambda: feed(m2, lo, hi, "BFH"), "chunk %d (%d frames) of a %d-frame stream" % (ci, hi - lo, F),
                          lo, "raises:chunk")
             compare("chunk#%d" % ci, res, lo, lo, hi)
             _cov_check(res["cov"], eps, lo, "chunk %d" % ci)
             parts.append(res)
+            kept_parts.append({k_: (res[k_].tensor() if k_ == "rot" else res[k_]).detach().clone() for k_ in ("rot", "vel", "pos")})
             out.ops += 1
+        # the per-chunk results are the caller's: collected during the stream, read after it
+        for ci, (res, snap_) in enumerate(zip(parts, kept_parts)):
+            for k_ in ("rot", "vel", "pos"):
+                cur_ = res[k_].tensor() if k_ == "rot" else res[k_]
+                if cur_.shape != snap_[k_].shape or not torch.equal(cur_, snap_[k_]):
+                    raise Violation("C16.mutation", "the '%s' returned for chunk %d of %d was changed by the calls made for later "
+                                    "chunks (shape %s -> %s)" % (k_, ci, len(chunks), tuple(snap_[k_].shape), tuple(cur_.shape)),
+                                    chunks[ci][0], "mutation:returned-result")
         tr.ev("chunked", [p["pos"] for p in parts][-1])
         out.sim_time += F
         # chunk invariance: states equal those of the single call
